@@ -703,7 +703,7 @@ CC_DIRECTIVES = {
     "stale_while_revalidate": ("stale-while-revalidate", "int"),
     "no_cache": ("no-cache", "str"), "private": ("private", "str"),
 }
-CC_VALUES = (True, False, None, 0, 5, "x", "")
+CC_VALUES = (True, False, None, 0, 1, 5, "x", "")
 
 
 def cc_typed_get(d, key, kind):
@@ -743,6 +743,11 @@ class CCFam(DictFam):
 
     def model_from_view(self, v, m):
         return tuple(dict.items(v))
+
+    def strict(self, op):
+        if op[0] == "attr_set" and CC_DIRECTIVES[op[1]][1] == "bool":
+            return bool(op[2])          # a falsy value removes the directive: removing nothing is a no-op
+        return Family.strict(self, op)
 
     def ops(self):
         ops = []
@@ -790,13 +795,13 @@ class CCFam(DictFam):
             key, kind = CC_DIRECTIVES[a]
             getter = lambda v, a=a: getattr(v, a)  # noqa: E731
             if kind == "bool":
-                if val is True:
+                # every value is in scope for a bool directive; the normal form is bool(value):
+                # truthy -> the bare directive is present, falsy (False, None, 0, '') -> it is absent
+                if val:
                     d[key] = None
-                elif val is False or val is None:
-                    d.pop(key, None)
                 else:
-                    return Exp(m, lenient=True)
-                return Exp(tuple(d.items()), readback=(getter, val is True))
+                    d.pop(key, None)
+                return Exp(tuple(d.items()), readback=(getter, bool(val)))
             if val is None or val is False:
                 d.pop(key, None)
                 return Exp(tuple(d.items()), readback=(getter, None))
@@ -1074,12 +1079,16 @@ class WWWFam(Family):
         return [("type_set", "digest"), ("type_set", "bearer"), ("type_set", "basic"),
                 ("token_set", "tok"), ("token_set", "abc"), ("token_set", None),
                 ("attr_set", "realm", "r"), ("attr_set", "realm", None), ("attr_set", "realm", ""), ("attr_set", "nonce", "n"),
+                ("attr_set", "realm", "CORP\\users"), ("attr_set", "realm", 'clusters "eu, us" only'),
+                ("item_set", "qop", 'say "hi"'), ("params_item", "opaque", 'a\\b "c, d"'),
                 ("attr_del", "realm"),
                 ("attr_del", "nonce"),
                 ("item_set", "qop", "auth"), ("item_set", "qop", None), ("item_set", "realm", "z"), ("item_del", "qop"),
                 ("params_item", "realm", "z"), ("params_item", "opaque", "o"), ("params_pop", "realm"), ("params_clear",),
                 ("params_assign", (("a", "b"),)), ("params_assign", ()),
                 ("assign", "obj", ("digest", (("realm", "r"),), None)), ("assign", "obj", ("bearer", (), "t")),
+                ("assign", "obj", ("digest", (("realm", "CORP\\users"), ("nonce", 'n "1, 2"')), None)),
+                ("assign", "obj", ("basic", (("realm", 'say "hi"'),), None)),
                 ("assign", "none", None), ("assign", "emptylist", None),
                 ("assign", "list", (("digest", (("realm", "r"),), None), ("bearer", (), "t"))), ("delprop",),
                 ("hdr_set", 'Digest realm="x", qop=auth'), ("hdr_set", "Bearer abc"), ("hdr_del",), ("reobtain",)]
